@@ -199,7 +199,12 @@ func (x *Exec) loopBack(fr *Frame, li *loopInfo, from *ssa.BasicBlock) {
 		if !ok {
 			r = tFalse
 		}
-		x.oblige("inv-keep", fmt.Sprintf("passes#%d.%s/keep@b%d", li.ordinal, pn, x.backOrdinal(fr, li, from)), g, r, "every iteration passes the program point of bind "+pn, b.Instrs[0].Pos(), false)
+		why := "every iteration passes the program point of bind " + pn
+		if u, ok := spec.PassesUnless[pn]; ok {
+			r = mkOr(r, x.evalBool(env, u.E))
+			why += " unless " + u.Text
+		}
+		x.oblige("inv-keep", fmt.Sprintf("passes#%d.%s/keep@b%d", li.ordinal, pn, x.backOrdinal(fr, li, from)), g, r, why, b.Instrs[0].Pos(), false)
 	}
 	if spec.ModGiven && !x.discover {
 		head := fr.headSt[b]
